@@ -15,6 +15,7 @@ pkgs_of() {
     citer) echo "./pkg/storage/storagewrappers ./internal/shared golang.org/x/sync/singleflight" ;;
     tsres) echo "golang.org/x/sync/singleflight" ;;
     memw) echo "./pkg/storage/memory google.golang.org/protobuf/types/known/timestamppb" ;;
+    authzx) echo "./internal/authz ./internal/concurrency" ;;
     cctl) echo "./internal/cachecontroller ./internal/graph ./internal/concurrency ./pkg/storage/storagewrappers ./internal/shared golang.org/x/sync/singleflight github.com/sourcegraph/conc github.com/sourcegraph/conc/pool github.com/sourcegraph/conc/panics" ;;
     *) return 1 ;;
   esac
@@ -29,6 +30,7 @@ main_of() {
     citer) echo ./internal/verifh/cmd/citer ;;
     memw) echo ./internal/verifh/cmd/memw ;;
     cctl) echo ./internal/verifh/cmd/cctl ;;
+    authzx) echo ./internal/verifh/cmd/authzx ;;
   esac
 }
 if [ "${1:-}" = "--is-variant" ]; then pkgs_of "$2" >/dev/null 2>&1; exit $?; fi
